@@ -78,7 +78,12 @@ def check_p8_pairs(k, res):
     from lib import carts
     lua = _mods()
     lines = []
-    if k < 16:
+    if k == 17:
+        # lines that read '__' glyphs '__' (inside a long comment): a .p8 section header is an ASCII word between the
+        # underscores, whatever Unicode class the glyph's spelling has
+        for c in list(range(0x80, 0x100)) + list(range(16, 32)) + [127]:
+            lines.append(b'--[[\n__' + bytes([c]) + b'__\n__' + bytes([c, c]) + b'x__\n]]\n')
+    elif k < 16:
         for a in range(16 * k, 16 * k + 16):
             for b in range(256):
                 if a in (0, 10, 13) or b in (0, 10, 13):
@@ -167,7 +172,7 @@ def shards(tier, seed):
     items.append(('triples', tier))
     items.append(('p8file',))
     items += [('longlines', k) for k in range(len(long_payloads()))]
-    items += [('p8pairs', k) for k in range(16)] + [('p8pairs', 16)]
+    items += [('p8pairs', k) for k in range(16)] + [('p8pairs', 16), ('p8pairs', 17)]
     return items
 
 
